@@ -385,15 +385,22 @@ PROPS["C01"] = {
     "lean_modules": ["AvroModel.Props.C01"],
     "required_theorems": ["record_roundtrip", "record_exact", "two_records", "blocks_partition", "flush_leaves_nothing", "file_roundtrip", "value_roundtrip", "value_roundtrip_exact", "value_roundtrip_spec", "norm_idempotent"],
     "harness": [("E2E", "C01")],
-    "level_text": "Proof by layers: record_roundtrip (Codec.Read of what Codec.Write appended, followed by anything, delivers the written "
-                  "datum's value and the exact rest - write correctness composed with read correctness, for every codec tree, value and budget), "
-                  "the block layer (C09.refines: header ++ frames of a partition of the records, nothing lost/duplicated/reordered/split) and the "
-                  "container layer (C07.delivers: such a file delivers all records in order; destination zeroed per record). The three layers "
-                  "are proved separately over their models; their composition is exercised end to end on the real code: random struct types of "
-                  "the whole C01 domain (run-time built, writer assembled from the exported pieces exactly as encoder.go does) and static "
-                  "types through the real generic Encoder, all three codecs, block sizes 0..2^14, random flush patterns; delivered records "
-                  "must equal the model's ofAvro(toAvro v) (the documented normalisations) in number, order and value.",
-    "level_note": "Trusted: Lean kernel; the formal composition of the three layer models is not yet a single theorem (different block representations); differential tie per layer + end-to-end run.",
+    "level_text": "Proof in layers that are composed formally. (1) records: record_roundtrip / record_exact - Codec.Read of what "
+                  "Codec.Write appended, followed by anything, delivers the written datum's value and the exact rest, for every codec tree, "
+                  "value and budget. (2) values: value_roundtrip - that value IS the normal form normCodec of the value written (RoundTrip.lean: "
+                  "ofAvro (toAvro g) zero = normCodec g under the explicit side conditions RTOk: integers in their Go range, distinct map keys, "
+                  "all fields targeted; nothing about nil/empty, omitempty zeros, wrappers or time resolution), normCodec is idempotent "
+                  "(norm_idempotent) and the identity on plain values (value_roundtrip_exact); value_roundtrip_spec ties normCodec to the "
+                  "type-directed normSpec written from the property text, on the stated fragment (NormSpec.normSpec_agrees), including the "
+                  "three recorded deviations D27/D30/D32 as normSpecD 7. (3) files: file_roundtrip - for every Encode/Flush history ended by "
+                  "Flush, every block size and every compressor undone by the decompressor, readFile of the bytes encRun wrote delivers "
+                  "exactly the written records in order and succeeds (EndToEnd.lean shows the writer's frames are the reader's ValidFile; "
+                  "C09.refines + C07.delivers). End-to-end tie on the real code: random struct types of the whole C01 domain (run-time built, "
+                  "writer assembled from the exported pieces exactly as encoder.go does) and static types through the real generic Encoder, "
+                  "all three codecs, block sizes 0..2^14, random flush patterns, zero-width and dense blocks; ORACLE independent of the codec "
+                  "model: normSpec applied to the value written and to the value delivered must agree in number, order and value; the model "
+                  "round trip is checked against the implementation separately (correspondence).",
+    "level_note": "Trusted: Lean kernel; EnvLaws (float32<->float64 conversion exact, RFC 3339 format/parse inverse - proved for the time model in C18/C19 - as hypotheses about the abstract Env); the tie buildCodec(schemaForType T) = fieldCodec T is checked by rfl on concrete types and by the differential run, not proved in general; differential tie per layer + end-to-end run. Known findings D27, D30, D32 (round-trip deviations, keyed by driver tags).",
     "rule": "Random struct types (bool, ints, floats, string, []byte, time.Time, null.*, slices, maps, pointers, nested structs, json/omitempty tags), "
             "0-9 records per file with nulls following non-nulls, boundary values, NaN/Inf/-0, nil/empty collections, nil pointers at every level.",
     "trusted": CODEC_TRUST,
